@@ -140,6 +140,73 @@ func (b *Block) Tx(idx uint64) *Tx {
 	return &b.Txs[len(b.Txs)-1]
 }
 
+func copyBytes(b Bytes) Bytes {
+	if b == nil {
+		return nil
+	}
+	return append(Bytes{}, b...)
+}
+
+// Returns deep copies of the blocks that share no memory with src.
+// Used to hand cached blocks to several readers that each attach
+// their own logs, receipts and traces.
+func CopyBlocks(src []Block) []Block {
+	dst := make([]Block, len(src))
+	for i := range src {
+		dst[i].Header = Header{
+			Number:    src[i].Header.Number,
+			Hash:      copyBytes(src[i].Header.Hash),
+			Parent:    copyBytes(src[i].Header.Parent),
+			LogsBloom: copyBytes(src[i].Header.LogsBloom),
+			Time:      src[i].Header.Time,
+		}
+		if src[i].Txs == nil {
+			continue
+		}
+		dst[i].Txs = make(Txs, len(src[i].Txs))
+		for j := range src[i].Txs {
+			s, d := &src[i].Txs[j], &dst[i].Txs[j]
+			d.Status = s.Status
+			d.GasUsed = s.GasUsed
+			d.EffectiveGasPrice = s.EffectiveGasPrice
+			d.ContractAddress = copyBytes(s.ContractAddress)
+			for k := range s.Logs {
+				d.Logs.Add(&s.Logs[k])
+			}
+			d.Idx = s.Idx
+			d.Type = s.Type
+			d.ChainID = s.ChainID
+			d.Nonce = s.Nonce
+			d.GasPrice = s.GasPrice
+			d.GasLimit = s.GasLimit
+			d.From = copyBytes(s.From)
+			d.To = copyBytes(s.To)
+			d.Value = s.Value
+			d.Data = copyBytes(s.Data)
+			d.V, d.R, d.S = s.V, s.R, s.S
+			if s.TraceActions != nil {
+				d.TraceActions = make([]TraceAction, len(s.TraceActions))
+				for k := range s.TraceActions {
+					d.TraceActions[k] = TraceAction{
+						Idx:      s.TraceActions[k].Idx,
+						From:     copyBytes(s.TraceActions[k].From),
+						CallType: s.TraceActions[k].CallType,
+						To:       copyBytes(s.TraceActions[k].To),
+						Value:    s.TraceActions[k].Value,
+					}
+				}
+			}
+			d.AccessList = append(AccessTuples(nil), s.AccessList...)
+			d.MaxPriorityFeePerGas = s.MaxPriorityFeePerGas
+			d.MaxFeePerGas = s.MaxFeePerGas
+			d.PrecompHash = copyBytes(s.PrecompHash)
+			d.rbuf = append([]byte(nil), s.rbuf...)
+			d.signer = append([]byte(nil), s.signer...)
+		}
+	}
+	return dst
+}
+
 type Log struct {
 	Idx     Uint64  `json:"logIndex"`
 	Address Bytes   `json:"address"`
